@@ -162,12 +162,13 @@ impl PrettyParseError {
             )
         };
         let err_string = format!(
-            "{err}\n{arrow}{position}\n{pipe}\n{pipe}{the_line}\n{pipe}{caret:>caret_offset$}\n",
+            "{err}\n{arrow}{position}\n{pipe}\n{pipe}{the_line}\n{pipe}{caret_padding}{caret}\n",
             err = err.specifics.to_string().bold().white(),
             position = position,
             the_line = the_line.trim_end(),
             caret = "^".bold().red(),
-            caret_offset = character_position + 1,
+            // not `{caret:>width$}`: format widths are limited to u16::MAX and panic beyond that
+            caret_padding = " ".repeat(character_position),
             arrow = "--> ".bold().blue(),
             pipe = " |  ".bold().blue(),
         );
